@@ -75,10 +75,11 @@ META = {'design_ref': 'DESIGN.md section 7 / C04',
                'repeated PUBREC makes the PUBREL go out twice within ONE connection, so at-most-one-PUBREL-per-connection is false of the model: it '
                'is one per processed PUBREC, which the monitor mon_c04 also tolerates). Still NOT proved (partial): (1) the count bound on PUBREL '
                'constructions (at most one per processed PUBREC / resumed connection), (2) completeness of the handshake at run level (success only '
-               'after PUBACK / PUBREC-then-PUBCOMP carrying the current identifier: only the one-step C04_*_completes theorems), (3) that the '
-               'submission of an operation precedes its first encoder construction in the log (it is a premise, submitted i l1, of the run '
-               'theorems; true of every real log because an operation must exist to be seated), (4) construction log -> bytes on the wire is '
-               'C02_run_wire_stream, not restated here; the extracted automaton mon_c04 keeps judging the implementation trace of every sampled '
-               'history',
+               'after PUBACK / PUBREC-then-PUBCOMP carrying the current identifier: only the one-step C04_*_completes theorems, plus - from the '
+               'accepted machine - that a PUBREC sets the PUBREL slot only while the PUBLISH is pending and carries the identifier it was '
+               'written with), (3) construction log -> bytes on the wire is C02_run_wire_stream, not restated here. The only premise about the '
+               'operation in the run theorems is submitted i (dlog h) = its id was given to a submitted QoS 1/2 PUBLISH somewhere in the '
+               'history; that the submission precedes everything handed to the encoder for it is PROVED (the machine rejects a submission after '
+               'a construction). The extracted automaton mon_c04 keeps judging the implementation trace of every sampled history',
  'technique': 'machine-checked proof in Coq over the engine model + lock-step correspondence of the extracted model with the implementation + extracted '
               'monitors on the implementation trace'}
